@@ -25,6 +25,14 @@ CHECKS = {
             "Seeded scenarios (trees sharing files, closed request, closed pre-populated destination of each store class incl. a simulated remote with atomic puts, optional remote index); per scenario every single-object upload failure and every failure subset up to the stated bound is executed against the real transfer code, closure of the destination is evaluated after every destination mutation (i.e. at every possible kill point of the run), then a clean retry must complete the destination. Sampling over scenarios, enumeration within; evidence not proof.",
             "Trusts tmpfs POSIX semantics, the stepwise copyfile re-implementation, SimRemoteFS atomic puts; faults are injected at copy-create / mid-copy / rename / remote put / remote ack.",
             "deterministic simulation: seeded scenarios + per-scenario upload-fault subset enumeration with inline closure monitor", "DESIGN.md §5 C04"),
+    "C11": ("fault_enumeration",
+            "Open-world transfer scenarios (shallow or expanded requests, arbitrary source/destination contents, ids missing on both sides, corrupt sources under verify) with the per-scenario upload-failure subsets enumerated as for C04; after each run the TransferResult is compared with before/after listings of both stores taken straight from the kernel / the simulated remote: partition, transferred => present with right bytes, absent => failed or missing on both sides, present-before => neither re-sent (seam log) nor reported, source bytes unchanged.",
+            "With a remote index the destination is generated closed (the index's 'directory exists => contents exist' shortcut is by design and C12's subject). Corrupt dir objects in the source are not generated (transfer asserts on them).",
+            "deterministic simulation: seeded scenarios + upload-fault subset enumeration, result vs store-listing oracle", "DESIGN.md §5 C11"),
+    "C12": ("exploration",
+            "Seeded histories over a source, a destination (each store class, SimRemoteFS) and one shared ObjectDBIndex: clean and faulty closed transfers, external deletions by 'another client', status and compare_status; without index every answer must equal the actual listing (both lookup strategies of the generic class are reached by randomising LIST_OBJECT_PAGE_SIZE / TRAVERSE_PREFIX_LEN and adding 00-prefixed fillers); with index every directory reported existing must be in the store at that instant and every id the index holds must have been delivered earlier (tracked from seam events) or be listed by a directory present now.",
+            "Index-free exactness for LocalHashFileDB uses intact objects only (its existence query is an integrity check, C07).",
+            "deterministic simulation: seeded operation/fault histories checked against a reference model after every step", "DESIGN.md §5 C12"),
 }
 
 NA_FIXED = {
